@@ -4,7 +4,7 @@
    functional half of auto-completion; Proofs/C11_walk.v: the listing walk. *)
 From Coq Require Import Permutation.
 From Verif Require Import Base.Common Base.Cstr Base.OddSearch Model.C11.
-From Verif Require Export Proofs.C11_order Proofs.C11_auto Proofs.C11_walk.
+From Verif Require Export Proofs.C11_order Proofs.C11_auto Proofs.C11_walk Proofs.C11_walkclass.
 
 Lemma lenZ_nonneg {A} (l : list A) : 0 <= lenZ l.
 Proof. unfold lenZ. lia. Qed.
